@@ -224,10 +224,16 @@ NO_PASSTHROUGH = {"expand_all", "expand_pair_all", "parse", "parse_curie", "pars
 NO_MODES = {"is_uri", "is_curie", "compress_strict", "expand_strict", "format_curie"}
 
 
+class _UserStr(str):
+    """a caller's own str subclass (a query's answer depends on the characters, not on the class)"""
+
+
 def impl_query(conv, step):
     m = step["m"]
     args = [uncps(a) for a in step.get("a", [])]
     s, p = step.get("s", False), step.get("p", False)
+    if step.get("cls") == "sub" and m != "trie_lpi":
+        args = [_UserStr(a) for a in args]      # the caller's strings are instances of a str subclass
     if m in ATTR_QUERIES:
         v = getattr(conv, m)
         return dict(v) if isinstance(v, dict) or hasattr(v, "items") else (list(v) if m == "records" else v)
@@ -457,6 +463,15 @@ def run_impl(steps: list[dict], injected: dict | None = None, observer=None) -> 
                 slots[st["dst"]] = Converter([r.model_copy(deep=True) for r in src.records] + extra,
                                              delimiter=src.delimiter)
                 out.append(None)
+            elif op == "clone":
+                import copy
+                import pickle
+
+                src = slots[st["src"]]
+                how = st.get("how", "deepcopy")
+                slots[st["dst"]] = (copy.deepcopy(src) if how == "deepcopy" else copy.copy(src) if how == "copy"
+                                    else pickle.loads(pickle.dumps(src)))
+                out.append(None)
             elif op == "dups":
                 import curies.api as A
 
@@ -605,17 +620,23 @@ def show_program(steps) -> list[str]:
         elif op == "fresh":
             out.append(f"c{st['dst']} = Converter(copies of c{st['src']}.records + [{'; '.join(show_record(r) for r in st.get('extra', []))}], "
                        f"delimiter=c{st['src']}.delimiter)")
+        elif op == "clone":
+            how = st.get("how", "deepcopy")
+            out.append(f"c{st['dst']} = " + ("pickle.loads(pickle.dumps" if how == "pickle" else "copy." + how)
+                       + f"(c{st['src']})" + (")" if how == "pickle" else ""))
         elif op == "dups":
             out.append(f"duplicates listed by Converter([{'; '.join(show_record(r) for r in st['records'])}])")
         elif op in ("load_pm", "load_reverse", "load_upgrade", "upgrade"):
-            out.append(f"c{st.get('dst', '')} = {op}({ {uncps(k): uncps(v) for k, v in st['data']} })")
+            dl = f", delimiter={uncps(st['delim'])!r}" if op == "load_pm" and "delim" in st else ""
+            out.append(f"c{st.get('dst', '')} = {op}({ {uncps(k): uncps(v) for k, v in st['data']} }{dl})")
         elif op == "load_priority":
             out.append(f"c{st['dst']} = from_priority_prefix_map({ {uncps(k): [uncps(x) for x in v] for k, v in st['data']} })")
         elif op == "load_jsonld":
             out.append(f"c{st['dst']} = from_jsonld({{'@context': {jsonld_context(st['data'])!r}}})")
         elif op == "q":
             flags = ("" if not st.get("s") else ", strict=True") + ("" if not st.get("p") else ", passthrough=True")
-            out.append(f"c{st['c']}.{st['m']}({', '.join(repr(uncps(a)) for a in st.get('a', []))}{flags})")
+            wrap = (lambda x: f"UserStr({x})") if st.get("cls") == "sub" else (lambda x: x)
+            out.append(f"c{st['c']}.{st['m']}({', '.join(wrap(repr(uncps(a))) for a in st.get('a', []))}{flags})")
         else:
             out.append(json.dumps(st))
     return out
